@@ -542,6 +542,32 @@ def stage_mixed_elements_sweep(ctx: Ctx):
                     if d:
                         ctx.violation(f'accepted-invalid|sweep-mixed-elements|{c.name}', 'an edit that was accepted left a tree that does not re-parse to itself', {**rec, 'src_after': m.src, 'diffs': d})
 
+    # a CUT that converts what it returns (args_as): a refused conversion must not have cut anything
+    for asrc in ('def f(a, *b, c=1): pass\n', 'def f(a, /, b, *, c, **d): pass\n', 'def f(a=1, b=2): pass\n', 'x = lambda a, *b, c=1, **d: 0\n', 'def f(*, a, b=1): pass\n'):
+        probe = fst.FST(asrc, 'exec')
+        n = len((probe.body[0].args if asrc.startswith('def') else probe.body[0].value.args)._all)
+        for args_as in ('pos', 'arg', 'kw', 'arg_only', 'kw_only', 'pos_maybe', 'arg_maybe', 'kw_maybe'):
+            for i in range(n):
+                for j in range(i + 1, n + 1):
+                    for how in ('get_slice', 'view_cut'):
+                        m = fst.FST(asrc, 'exec')
+                        args = m.body[0].args if asrc.startswith('def') else m.body[0].value.args
+                        before = (m.src, ast.dump(m.a, include_attributes=True))
+                        rec = {'src': asrc, 'start': i, 'stop': j, 'args_as': args_as, 'entry': how}
+                        try:
+                            piece = args.get_slice(i, j, '_all', cut=True, args_as=args_as) if how == 'get_slice' else args._all[i:j].cut(args_as=args_as)
+                        except Exception as e:
+                            ctx.tick(('args_as-cut', asrc, i, j, args_as, how, 'raised'), 'fault:sweep:cut-with-conversion')
+                            after = (m.src, ast.dump(m.a, include_attributes=True) if m.a is not None else None)
+                            if after != before:
+                                ctx.violation(f'mutated|sweep-cut-with-conversion|{type(e).__name__}|' + ('source changed' if after[0] != before[0] else 'tree positions/structure changed'),
+                                              'a raising edit did not leave the tree exactly as it was', {**rec, 'error': repr(e)[:200], 'src_after': after[0]})
+                            continue
+                        ctx.tick(('args_as-cut', asrc, i, j, args_as, how, 'ok'), 'fault:sweep:cut-with-conversion:accepted')
+                        d = reparse_diffs(m)
+                        if d and n - (j - i) > 0:
+                            ctx.violation('accepted-invalid|sweep-cut-with-conversion', 'a cut that was accepted left a tree that does not re-parse to itself', {**rec, 'src_after': m.src, 'diffs': d})
+
 
 def run(ctx: Ctx):
     ctx.rule = ('fault sequences: histories mixing invalid requests (15 fault kinds: unparsable code, wrong category with coerce=False, index/slice out of '
